@@ -122,6 +122,8 @@ def check(ctx, report):
     # text side: the name[=value] composers write the four value kinds the parser distinguishes (shared with C18.R4)
     from .c18 import name_value_composers
     name_value_composers(ctx, report, rule='C01.R7')
+    from .c08 import txt_chunks
+    txt_chunks(ctx, report, rule='C01.R8')
     if 'SslRecord' in reviewed and reviewed['SslRecord'].get('strip_header'):
         # the header left out of the element-wise comparison above
         from .c06 import ssl2_header
